@@ -3,7 +3,7 @@ use cbor_event::de::Deserializer;
 use cbor_event::se::Serializer;
 use crate::protocol_types::Deserialize;
 use crate::{CborSetType, DeserializeError, Vkeywitness, Vkeywitnesses};
-use crate::serialization::utils::skip_set_tag;
+use crate::serialization::utils::{is_break_tag, skip_set_tag};
 
 impl cbor_event::se::Serialize for Vkeywitnesses {
     fn serialize<'se, W: Write>(
@@ -37,8 +37,7 @@ impl Deserialize for Vkeywitnesses {
                 cbor_event::Len::Len(n) => total < n,
                 cbor_event::Len::Indefinite => true,
             } {
-                if raw.cbor_type()? == cbor_event::Type::Special {
-                    assert_eq!(raw.special()?, cbor_event::Special::Break);
+                if is_break_tag(raw, "Vkeywitnesses")? {
                     break;
                 }
                 wits.add_move(Vkeywitness::deserialize(raw)?);
